@@ -226,8 +226,9 @@ class TestResult(unittest.TestResult):
         self._tags = TagContext(self._tags)
 
     def stopTest(self, test):
-        # NOTE: In Python 3.12.1 skipped tests may not call startTest()
-        if self._tags is not None:
+        # NOTE: In Python 3.12.1 skipped tests may not call startTest(): there
+        # is then no test-local context to drop, and the run-level one stays.
+        if self._tags.parent is not None:
             self._tags = self._tags.parent
         super().stopTest(test)
 
@@ -1603,8 +1604,9 @@ class ExtendedToOriginalDecorator:
         self.shouldStop = True
 
     def stopTest(self, test):
-        # NOTE: In Python 3.12.1 skipped tests may not call startTest()
-        if self._tags is not None:
+        # NOTE: In Python 3.12.1 skipped tests may not call startTest(): there
+        # is then no test-local context to drop, and the run-level one stays.
+        if self._tags.parent is not None:
             self._tags = self._tags.parent
         return self.decorated.stopTest(test)
 
@@ -1667,8 +1669,9 @@ class ExtendedToStreamDecorator(CopyStreamResult, StreamSummary, TestControl):
         self._tags = TagContext(self._tags)
 
     def stopTest(self, test):
-        # NOTE: In Python 3.12.1 skipped tests may not call startTest()
-        if self._tags is not None:
+        # NOTE: In Python 3.12.1 skipped tests may not call startTest(): there
+        # is then no test-local context to drop, and the run-level one stays.
+        if self._tags.parent is not None:
             self._tags = self._tags.parent
 
     def addError(self, test, err=None, details=None):
